@@ -284,12 +284,51 @@ var dirNames = func() []string {
 }()
 
 // lexical classes of values; command, file and interval slots stay harmless
-var values = []string{"", "0", "1", "-1", "5", "99999999999999999999", "65536", "1s", "0s", "-5s", "10m", "none", "off", "on", "*", "/", "/x", "x", ".php", "1MB", "4KB", "0B", "-1KB", "1GB", "9999999GB", "KB",
-	"missing.txt", "ht.txt", "cert.pem", "key.pem", "page.html", "dir", "./", "a.log", "stdout", "stderr", "syslog", "http://127.0.0.1:9", "https://127.0.0.1:9", "127.0.0.1:9", "localhost:9-12", "localhost:70000", "unix:/nonexistent.sock", "srv://x.test", "://", "h:p:q",
+var values = []string{"", "0", "1", "-1", "5", "99999999999999999999", "65536", "65535", "255", "256", "2147483647", "2147483648", "4294967295", "4294967296", "9223372036854775807", "9223372036854775808", "-2147483649", "1e9", "0x10", "007", "1s", "0s", "-5s", "10m", "none", "off", "on", "*", "/", "/x", "x", ".php", "1MB", "4KB", "0B", "-1KB", "1GB", "9999999GB", "KB",
+	"missing.txt", "ht.txt", "cert.pem", "key.pem", "page.html", "dir", "./", "a.log", "stdout", "stderr", "syslog", "http://127.0.0.1:9", "https://127.0.0.1:9", "127.0.0.1:9", "localhost:9-12", "localhost:70000", "localhost:65533-65535", "localhost:65535-65535", "localhost:65535", "localhost:12-9", "localhost:65534-65536", "localhost:0-2", "localhost:1-", "localhost:-5", "localhost:5-5-5", "unix:/nonexistent.sock", "srv://x.test", "://", "h:p:q",
 	"^(.*)$", "(", "[a-", "{path}", "{>X}", "{1}", "{$HOME}", "text/plain", "tls1.2", "tls1.0", "ssl3", "p256", "rsa2048", "X25519", "ECDHE-RSA-AES128-GCM-SHA256", "GET", "get", "301", "999", "abc", "is", "not", "match", "true", "false", "nonexistent-command-xyz", "&", "ü", strings.Repeat("a", 300), "a b", "\"", "255.255.255.0", "ffff::", "300.1.1.1", "round_robin", "header", "ip_hash", "random", "startup", "shutdown", "certrenew", "bogus_event", "zip", "tar.gz", "rar", "lines", "text", "binary", "request", "require", "verify_if_given", "ca.pem"}
 
 func genValue(t *rapid.T, lb string) string {
 	return rapid.SampledFrom(values).Draw(t, lb)
+}
+
+// category groups values by what kind of slot they are aimed at, so that a
+// replaced argument is often replaced by another spelling of the same kind
+// (an address by an address, a number by a number ...).
+func category(v string) string {
+	switch {
+	case v == "":
+		return "empty"
+	case strings.Contains(v, "://") || (strings.Contains(v, ":") && strings.ContainsAny(v, "0123456789") && !strings.ContainsAny(v, "{ ")):
+		return "address"
+	case strings.HasSuffix(v, "B") && len(v) > 1 && v != "KB" || v == "KB":
+		return "size"
+	case len(v) > 1 && strings.ContainsAny(v[len(v)-1:], "smh") && strings.ContainsAny(v[:1], "-0123456789"):
+		return "duration"
+	case strings.Trim(v, "-0123456789ex") == "":
+		return "number"
+	case strings.HasPrefix(v, "/") || strings.HasPrefix(v, "."):
+		return "path"
+	case strings.HasSuffix(v, ".txt") || strings.HasSuffix(v, ".pem") || strings.HasSuffix(v, ".html") || strings.HasSuffix(v, ".log"):
+		return "file"
+	}
+	return "word"
+}
+
+var valuesByCategory = func() map[string][]string {
+	m := map[string][]string{}
+	for _, v := range values {
+		m[category(v)] = append(m[category(v)], v)
+	}
+	return m
+}()
+
+// genReplacement draws a new value for a slot that held old.
+func genReplacement(t *rapid.T, lb, old string) string {
+	if same := valuesByCategory[category(old)]; len(same) > 1 && rapid.Bool().Draw(t, lb+"same") {
+		return rapid.SampledFrom(same).Draw(t, lb+"sv")
+	}
+	return genValue(t, lb)
 }
 
 func cloneDir(d Dir) Dir {
@@ -324,7 +363,8 @@ func genDir(t *rapid.T, lb string) Dir {
 			}
 		case 2: // replace an argument
 			if len(d.Args) > 0 {
-				d.Args[rapid.IntRange(0, len(d.Args)-1).Draw(t, m+"j")] = genValue(t, m+"a")
+				j := rapid.IntRange(0, len(d.Args)-1).Draw(t, m+"j")
+				d.Args[j] = genReplacement(t, m+"a", d.Args[j])
 			}
 		case 3: // add a sub-block line from the directive's own vocabulary (or junk)
 			d.Has = true
@@ -355,7 +395,8 @@ func genDir(t *rapid.T, lb string) Dir {
 				case 1:
 					l.Toks = append(l.Toks, genValue(t, m+"a"))
 				case 2:
-					l.Toks[rapid.IntRange(0, len(l.Toks)-1).Draw(t, m+"jj")] = genValue(t, m+"a")
+					jj := rapid.IntRange(0, len(l.Toks)-1).Draw(t, m+"jj")
+					l.Toks[jj] = genReplacement(t, m+"a", l.Toks[jj])
 				}
 			}
 		case 5: // empty block
@@ -459,6 +500,7 @@ var constants = []string{
 	"localhost:0 {\n\terrors visible {\n\t\trotate_keep 5\n\t}\n\tzz_end\n}\n",
 	"localhost:0 {\n\tproxy / 127.0.0.1:9 {\n\t\thealth_check /x\n\t\thealth_check_interval 0s\n\t}\n\tzz_end\n}\n",
 	"localhost:0 {\n\tproxy / 127.0.0.1:9 {\n\t\thealth_check /x\n\t\thealth_check_interval -5s\n\t}\n\tzz_end\n}\n",
+	"localhost:0 {\n\tproxy / localhost:65533-65535\n\tzz_end\n}\n", "localhost:0 {\n\tproxy / localhost:65535-65535\n\tzz_end\n}\n", "localhost:0 {\n\tproxy / {\n\t\tupstream localhost:65534-65535\n\t}\n\tzz_end\n}\n", "localhost:0 {\n\tproxy / localhost:12-9\n\tzz_end\n}\n",
 	"localhost:0 {\n\tredir\n\tzz_end\n}\n", "localhost:0 {\n\tmime\n\tzz_end\n}\n", "localhost:0 {\n\tstatus\n\tzz_end\n}\n", "localhost:0 {\n\theader\n\tzz_end\n}\n",
 	"localhost:0 {\n\ttls {\n\t\tclients\n\t}\n\tzz_end\n}\n", "localhost:0 {\n\ttls {\n\t\tciphers\n\t}\n\tzz_end\n}\n", "localhost:0 {\n\ttls {\n\t\tcurves\n\t}\n\tzz_end\n}\n", "localhost:0 {\n\ttls {\n\t\talpn\n\t}\n\tzz_end\n}\n",
 	"localhost:0 {\n\ttls {\n\t\tdns\n\t}\n\tzz_end\n}\n", "localhost:0 {\n\ttls {\n\t\tload\n\t}\n\tzz_end\n}\n", "localhost:0 {\n\ttls {\n\t\tmax_certs\n\t}\n\tzz_end\n}\n", "localhost:0 {\n\ttls {\n\t\task\n\t}\n\tzz_end\n}\n", "localhost:0 {\n\ttls {\n\t\tca\n\t}\n\tzz_end\n}\n",
